@@ -8,6 +8,7 @@ import Driver.Abi
 import Driver.Tally
 import Driver.Chain
 import Driver.Valset
+import Driver.Authz
 import Driver.Oracle
 import Driver.Claim
 open Driver
@@ -30,6 +31,7 @@ def dispatch (fam : String) : Option (List String → String → Option Res) :=
   | "deposit" => some runDeposit
   | "proposal" => some runProposal
   | "valsetchain" => some runValsetChain
+  | "authz" => some runAuthz
   | "claim" => some runClaim
   | "oracle" => some runOracle
   | "oracle7" => some runOracle7
